@@ -808,6 +808,30 @@ mut("C16", "dq-backslash-unescaped", "R16-3|parsers::parser_line::parse_line|dq-
     "inside double quotes the tokenizer turns two backslashes into one; the renderer does not re-escape it",
     (P, """        if has_backslash && sep == "\\"" && c != '\\"' {""", """        if has_backslash && sep == "\\"" && c != '\\"' && c != '\\\\' {"""))
 
+mut("C05", "highlight-fallback-char-end", "char-index-as-byte-offset",
+    "the highlighter's fallback range ends at a character index added to a byte offset",
+    ("src/highlight.rs", """             // As a basic fallback, consume up to the next space or end of line? Unsafe.
+             // Return None to signal failure for this token.
+             None""", """             let mut end = search_area.len();
+             for (i, c) in search_area.chars().enumerate() {
+                 if c == ' ' {
+                     end = i;
+                     break;
+                 }
+             }
+             Some(token_start_byte..(token_start_byte + end))"""))
+ref("highlight-fallback-byte-end", ["C05"], "the same fallback written with char_indices (byte offsets)",
+    ("src/highlight.rs", """             // As a basic fallback, consume up to the next space or end of line? Unsafe.
+             // Return None to signal failure for this token.
+             None""", """             let mut end = search_area.len();
+             for (i, c) in search_area.char_indices() {
+                 if c == ' ' {
+                     end = i;
+                     break;
+                 }
+             }
+             Some(token_start_byte..(token_start_byte + end))"""))
+
 # ------------------------------------------------------------------ C13
 mut("C13", "env-resets-tag", "R13-2", "expand_env drops the quote tag of the token it rewrites",
     (S, '''    for (i, text) in buff.iter().rev() {
